@@ -1,7 +1,7 @@
 #!/bin/sh
 # usage: tools/seedbatch.sh NAME... (e.g. C01a C01b) - verifies /tmp/seed_<Cxx>/<v> in parallel (4 at a time), prints one line each
 cd "$(dirname "$0")/.."
-for n in "$@"; do echo $n; done | xargs -P 4 -I{} sh -c 'p=$(echo {} | cut -c1-3); v=$(echo {} | cut -c4-); tools/seedtest.py /tmp/seed_$p/$v {} $SEEDTEST_ARGS > /tmp/st_{}.json 2>&1'
+for n in "$@"; do echo $n; done | xargs -P 4 -I{} sh -c 'p=$(echo {} | cut -c1-3); v=$(echo {} | cut -c4-); tools/seedtest.py ${SEED_DIR_PREFIX:-/tmp/seed_}$p/$v {} $SEEDTEST_ARGS > /tmp/st_{}.json 2>&1'
 for n in "$@"; do /venv/bin/python -c "
 import json,sys
 s=open('/tmp/st_$n.json').read()
